@@ -1180,3 +1180,84 @@ def rule_decoders_keep_true_variables(ctx):
                         n += 1
                         r.check(ok, b.id + "|bound", "decoder-bound:%s%+d" % (op, k0), "an id is decoded when id < n", "the decoder keeps an argument id when `id - n %+d %s 0`, not when id < n: the argument with the last id is dropped (or an id beyond the framework is looked up)" % (k0, {"Lt": "<", "Le": "<=", "Gt": ">", "Ge": ">="}[op]), s.loc())
     r.floor(n, 6, "decoders from models to argument sets")
+
+
+def rule_witnessless_cache_hits(ctx):
+    """C08: answering from the cache without a witness"""
+    prog = ctx.prog
+    from ..prov import prov, show, subterms, leaves
+
+    r = ctx.rule(
+        "witnessless-cache-hits",
+        "a dynamic solver answers from its cache without a witness (a look-up result `(Some(status), None)`) only if every list it caches for "
+        "that kind of answer is proved: made of the queried argument itself. A list accumulated from flags of a search (`in all the maximal sets "
+        "*visited*`) is only a candidate list: the search discards sets without growing them, so the list over-approximates the accepted arguments",
+    )
+    n = 0
+    for imp in dyn_impls(prog):
+        sadt = imp.get("self_adt")
+        methods = []
+        for tr in ("solvers::specs::CredulousAcceptanceComputer", "solvers::specs::SkepticalAcceptanceComputer"):
+            for i2 in prog.impls_of_trait(tr):
+                if i2.get("self_adt") == sadt:
+                    for m in i2["methods"]:
+                        b = prog.lib(m["path"])
+                        if b is not None:
+                            methods.append(b)
+        group = list(methods)
+        for b in methods:
+            for x in prog.reachable_from([b], virtual_dispatch=False).values():
+                if x.kind != "closure" and x not in group and x.impl and x.impl.get("self_adt") == sadt and not x.impl.get("trait"):
+                    group.append(x)
+        # lists cached without a witness: accepted of a skeptical computation, refused of a credulous one
+        unproved = {}
+        for b in group:
+            for y in prog.with_closures(b):
+                for s in y.calls():
+                    nm = strip_generics(callee_name(callee_of(s)) or "")
+                    m = re.search(r"::add_(skeptical|credulous)_computation$", nm)
+                    if not m or len(s.node["args"]) < 4:
+                        continue
+                    kind = m.group(1)
+                    lst = s.node["args"][1] if kind == "skeptical" else s.node["args"][2]
+                    for e in prov(prog, y, lst):
+                        # proved forms: the empty vector; `vec![arg.clone()]` with arg an element of the method's list parameter
+                        calls = [t for t in subterms(e) if isinstance(t, tuple) and t[0] == "call"]
+                        empty = e[0] == "call" and re.search(r"Vec::new$|Vec::<.*>::new$", e[1]) is not None
+                        queried = bool(calls) and all(re.search(r"box_assume_init_into_vec_unsafe$|new_uninit$|Box.*::new$|write$|slice::.*into_vec$", t[1]) for t in calls)
+                        params = {l for l in leaves(e) if l[0] == "param"}
+                        if empty:
+                            continue
+                        if not queried or any(l[0] in ("?", "var") for l in leaves(e)) or len(e) == 0:
+                            unproved.setdefault(kind, []).append((s, e))
+        # uses of witness-less hits
+        for b in group:
+            for s in b.calls():
+                nm = strip_generics(callee_name(callee_of(s)) or "")
+                m = re.search(r"::is_(skeptically|credulously)_accepted$", nm)
+                if not m or not re.match(r"^\(core::option::Option<bool>", b.local_ty(s.node["dst"]["l"])):
+                    continue
+                kind = "skeptical" if m.group(1) == "skeptically" else "credulous"
+                L = s.node["dst"]["l"]
+                for st in b.sites():
+                    nd = st.node
+                    if st.si is None or nd["k"] != "assign" or nd["dst"] != {"l": 0, "p": []}:
+                        continue
+                    cs = [c for c in conditions(b, st.bb) if c.is_discr and c.place["l"] == L and c.place["p"]]
+                    first_some = any(str(place_fields(c.place)[0]) == "0" and not c.negated and c.values == ["1"] for c in cs if place_fields(c.place))
+                    second_some = any(str(place_fields(c.place)[0]) == "1" and not c.negated and c.values == ["1"] for c in cs if place_fields(c.place))
+                    if not first_some or second_some:
+                        continue
+                    n += 1
+                    anchor = "%s|%s-hit" % (b.id, kind)
+                    bad = unproved.get(kind)
+                    if bad:
+                        r.violation(anchor, "hit-on-candidate-list", "the %s query answers from the cache without a witness, but the list this solver caches for such answers (%s) is not made of proved arguments: it is accumulated during a search that does not visit every extension" % (kind, show(bad[0][1])[:80]), st.loc())
+                    else:
+                        r.ok(anchor, "answers without a witness from lists made of the queried argument only", st.loc())
+        if unproved:
+            n += 1
+            k0 = sorted(unproved)[0]
+            r.ok("%s|lists" % sadt, "%s caches a candidate list without a witness (%s answers); no query uses it without a witness" % (sadt.rsplit("::", 1)[-1], k0) if True else "", unproved[k0][0][0].loc())
+    if n == 0:
+        r.ok("cache", "no dynamic solver answers from its cache without a witness, and none caches a candidate list", None)
